@@ -34,6 +34,7 @@ def run(repo, run, tier):
     from .c05 import retry_step
     retry_step(repo, run, rule_id="C03.10")
     target_as_given(repo, run, m)
+    committed_row_is_written(repo, run, m)
 
 
 # ------------------------------------------------------------------------------------------------
@@ -461,9 +462,9 @@ def restore(repo, run, m):
         run.report("C03.6", DS, restores[0], "the re-committed row is not followed by `counter += 1` in the same block", text="re-commit increment")
 
 
-def exits(repo, run, m):
+def exits(repo, run, m, rule_id="C03.7"):
     """ends at the target: the step loop can be left only because the distance test fails (target reached) or a terminal event was found"""
-    rid = run.rule("C03.7", "exit discipline of the step loop: the names its `while` test reads are rebound inside the loop only by the event handler's "
+    rid = run.rule(rule_id, "exit discipline of the step loop: the names its `while` test reads are rebound inside the loop only by the event handler's "
                             "result (terminal event); there is no `break`/`return` out of the step loop other than under that flag: the loop cannot "
                             "stop short of the target for any other reason (e.g. 'the clamped last step was requested', which the integrator may shorten)", floor=2)
     loop = m.loop
@@ -484,7 +485,7 @@ def exits(repo, run, m):
             if from_handler:
                 stop_flags.add(nme)
             else:
-                run.report("C03.7", DS, st, "`%s`, which the step loop's test reads, is rebound inside the loop by something other than the event handler's "
+                run.report(rule_id, DS, st, "`%s`, which the step loop's test reads, is rebound inside the loop by something other than the event handler's "
                                             "result: the loop can end although the target was not reached (the integrator may have shortened the step)" % nme)
     # break / return leaving the loop
     from ..sym import path_condition, tree_atoms
@@ -498,7 +499,7 @@ def exits(repo, run, m):
             ok = bool(ats & stop_flags)
             run.judged(rid, "`%s` out of the step loop under %s" % (src(st)[:40], sorted(ats)), ok=ok)
             if not ok:
-                run.report("C03.7", DS, st, "the step loop is left by `%s` under a condition that is not the terminal-event flag" % src(st)[:40])
+                run.report(rule_id, DS, st, "the step loop is left by `%s` under a condition that is not the terminal-event flag" % src(st)[:40])
     run.judged(rid, "stop flags of the step loop: %s" % sorted(stop_flags), ok=True)
     # each stop flag is initialised False before the loop
     for nme in sorted(stop_flags):
@@ -507,7 +508,7 @@ def exits(repo, run, m):
         ok = bool(init) and all(isinstance(st.value, ast.Constant) and st.value.value is False for st in init)
         run.judged(rid, "`%s` starts False" % nme, ok=ok)
         if not ok:
-            run.report("C03.7", DS, init[0] if init else loop, "the stop flag `%s` is not initialised to False before the step loop" % nme, text="stop flag initial value")
+            run.report(rule_id, DS, init[0] if init else loop, "the stop flag `%s` is not initialised to False before the step loop" % nme, text="stop flag initial value")
 
 
 def at_target(repo, run, m):
@@ -598,3 +599,93 @@ def target_as_given(repo, run, m):
             run.report("C03.11", DS, st, "the target of integrate(t) is converted with `%s`, a fixed precision: for a system whose state is wider than that (longdouble) the "
                        "target is rounded (e.g. 1/3 in longdouble -> the nearest double), the run ends ~1e2..1e3 rounding units of the state's precision away from "
                        "the requested time and still reports success; the recorded grid no longer 'ends at the target to within a few rounding units'" % src(conv)[:60])
+
+
+# ------------------------------------------------------------------------------------------------
+class RowClient(Client):
+    """state (t_ok, y_ok): rows counter+1 of the time / state buffers hold the step that the next `counter += 1` commits"""
+
+    def __init__(self, m, alloc_keeps_all):
+        self.m = m
+        self.alloc_keeps_all = alloc_keeps_all
+        self.bad = {}
+
+    def transfer(self, st, state):
+        t_ok, y_ok = state
+        if isinstance(st, ast.Assign):
+            for tg in st.targets:
+                if isinstance(tg, ast.Subscript) and (is_t_buf(tg.value) or is_y_buf(tg.value)):
+                    idx = Canon().poly(tg.slice) if not isinstance(tg.slice, (ast.Slice, ast.Tuple)) else None
+                    if idx is not None and idx == Poly.atom("self.counter") + Poly.const(1):
+                        if is_t_buf(tg.value):
+                            t_ok = True
+                        else:
+                            y_ok = True
+        if isinstance(st, ast.AugAssign) and is_self_attr(st.target, "counter"):
+            k = None
+            try:
+                k = const_value(st.value)
+            except ValueError:
+                pass
+            if isinstance(st.op, ast.Add) and k == 1:
+                if not (t_ok and y_ok):
+                    self.bad.setdefault(id(st), (st, set()))[1].add((t_ok, y_ok))
+                return [(False, False)]
+            if isinstance(st.op, ast.Sub) and k == 1:
+                return [(True, True)]          # the row above the new counter is the one that was just committed
+            return [(False, False)]
+        for c in ast.walk(st):
+            if isinstance(c, ast.Call):
+                d = dotted(c.func) or ""
+                if d == "self.integrate":
+                    return [(False, False)]
+                if d in ("self.__allocate_soln_space", "self.__trim_soln_space") and not self.alloc_keeps_all.get(d.split(".")[-1], False):
+                    t_ok = y_ok = False
+        return [(t_ok, y_ok)]
+
+
+def committed_row_is_written(repo, run, m):
+    """'times and states stay paired one-to-one ... however many steps are taken' (steps beyond the pre-allocated buffer included): every `counter += 1` commits a row
+    that holds this iteration's step.  The fact 'rows counter+1 are written' is established by the two row stores, survives a roll-back (`counter -= 1`: the row
+    above is the one just committed), and survives a re-allocation only if the allocator carries over ALL rows of the old buffers (fact read from the allocator:
+    `concatenate([old, new])` does, copying `[:counter + 1]` into a fresh array does not)."""
+    rid = run.rule("C03.12", "every `counter += 1` of the step loop is reached with rows counter+1 of both buffers written in this iteration (flow analysis; a roll-back keeps "
+                             "the fact, a buffer re-allocation keeps it only if the allocator preserves every row of the old buffer)", floor=2)
+    keeps = {}
+    for name in ("__allocate_soln_space", "__trim_soln_space"):
+        fn = repo.maybe(DS, "OdeSystem." + name)
+        if fn is None:
+            continue
+        run.analysed_fn(DS, fn)
+        ok_all = True
+        for st in walk_no_nested(fn):
+            if isinstance(st, ast.Assign) and any(is_t_buf(t) or is_y_buf(t) for t in st.targets):
+                v = st.value
+                buf = src(st.targets[0])
+                whole = False
+                if isinstance(v, ast.Call) and fname(v) in ("concatenate", "cat", "vstack", "append") and v.args:
+                    a0 = v.args[0]
+                    first = a0.elts[0] if isinstance(a0, (ast.List, ast.Tuple)) and a0.elts else a0
+                    whole = src(first) == buf
+                if isinstance(v, ast.BinOp) and isinstance(v.op, ast.Add) and src(v.left) == buf:
+                    whole = True
+                if name == "__trim_soln_space":
+                    whole = whole or (isinstance(v, ast.Subscript) and src(v.value) == buf)       # trimming happens at the exits of integrate(), after the last commit
+                ok_all = ok_all and whole
+        keeps[name] = ok_all
+        run.judged(rid, "%s %s" % (name, "carries over every row of the old buffers" if ok_all else "does NOT carry over every row of the old buffers"), nontrivial=False)
+    cl = RowClient(m, keeps)
+    eng = Engine(cl)
+    eng.run(m.fn, [(False, False)])
+    incs = [st for st in walk_no_nested(m.loop) if isinstance(st, ast.AugAssign) and is_self_attr(st.target, "counter") and isinstance(st.op, ast.Add)]
+    if not incs:
+        raise AnalysisError("integrate(): no `counter += 1` in the step loop")
+    for st in incs:
+        states = cl.bad.get(id(st), (st, set()))[1]
+        run.judged(rid, "`%s` at line %d: %s" % (src(st), st.lineno, "rows written on every path" if not states else "reached with (t row, y row) written = %s" % sorted(states)), ok=not states)
+        if states:
+            run.report("C03.12", DS, st, "`counter += 1` commits row counter+1 on a path where it is not known to hold this iteration's step (time row written: %s, state row written: "
+                       "%s): after a roll-back the buffers may have been re-allocated by an allocator that copies only rows [0, counter], so the accepted step comes back as "
+                       "zeros (t = 0, y = 0 in the middle of the grid) whenever an event is located in the step that fills the last pre-allocated row"
+                       % tuple(sorted(states)[0]), text="commit without row writes at line-independent site `%s` in the %s branch" % (
+                           src(st), "event" if any(isinstance(a, ast.If) and "events" in src(a.test) for a in ancestors(st)) else "main"))
